@@ -132,6 +132,8 @@ class MoreInfoFromHeaderMixin:
             return None
 
         try:
-            return URL(url=referrer)
+            url = URL(url=referrer)
+            url.port  # e.g. "http://h:99999/": parsed lazily, unusable afterwards
+            return url
         except ValueError:  # e.g. "http://[": not a URL at all
             return None
